@@ -269,6 +269,17 @@ fn main() {
             }
             0
         }
+        Some("plan") => {
+            // diagnostic: the plan of one session (keys, requests, environment), as `drive` would run it
+            let seed: u64 = arg(&args, "--seed").map(|s| s.parse().unwrap()).unwrap_or(1);
+            let index: u64 = arg(&args, "--index").map(|s| s.parse().unwrap()).unwrap_or(0);
+            let (c, _) = corpus(arg(&args, "--repo").unwrap_or("/repo"));
+            let s = drive::gen_session(seed, index, &c);
+            for seg in &s.segments {
+                println!("{}", serde_json::to_string(&json!({"env": seg.env, "sched": seg.sched})).unwrap());
+            }
+            0
+        }
         Some("emit-keys") => {
             // key table for the real-rustc and Miri layers: families (seeded), faults, harvested
             let seed: u64 = arg(&args, "--seed").map(|s| s.parse().unwrap()).unwrap_or(1);
